@@ -27,6 +27,7 @@ import (
 	"fmt"
 	"net/http"
 	"net/http/httptest"
+	"os"
 	"regexp"
 	"sort"
 	"strings"
@@ -486,6 +487,15 @@ func mergeScenario() vrt.Scenario {
 
 // Scenarios returns family A.
 func Scenarios() []vrt.Scenario {
+	// a worker asked to explore one scenario of the request matrix builds just that one (the
+	// matrix has > 15000 entries and a worker process is started per scenario)
+	for i, a := range os.Args {
+		if (a == "-scenario" || a == "--scenario") && i+1 < len(os.Args) {
+			if sc, ok := matrixByName(os.Args[i+1]); ok {
+				return []vrt.Scenario{sc}
+			}
+		}
+	}
 	js, xm := "application/json", "application/xml"
 	thorough := func(s vrt.Scenario) vrt.Scenario { s.ThoroughOnly = true; return s }
 	thoroughBound2 := func(s vrt.Scenario) vrt.Scenario {
@@ -548,5 +558,6 @@ func Scenarios() []vrt.Scenario {
 			[]reqSpec{{method: "PUT", path: "/files/q", reqID: "r5"}, {method: "GET", path: "/missing", reqID: "r6"}})),
 	}
 	out = append(out, mountScenarios()...)
+	out = append(out, matrixScenarios()...)
 	return out
 }
